@@ -496,7 +496,7 @@ theorem bom_boundary_ge {src : List Nat} {off : Nat} (hb : isBoundary src off = 
     | n + 3, _ => omega
   · simp at hbom
 
-theorem random_eq_spec {src : List Nat} (hs : LineStartsOk src) {off : Nat}
+theorem randomLocate_eq_rowCol {src : List Nat} (hs : LineStartsOk src) {off : Nat}
     (hb : isBoundary src off = true) : randomLocate src off = some (rowCol src off) := by
   have hle : off ≤ src.length := isBoundary_le hb
   have hsorted := breakEnds_sorted 0 src
